@@ -204,8 +204,13 @@ def _same(env, arr, rows):
     return bool(np.allclose(np.asarray(arr), np.array(rows, dtype=float), rtol=0, atol=1e-12))
 
 
+# properties whose thorough extras were run end-to-end on the unchanged tree (exit 0); others: thorough == quick
+from harness.thorough_verified import THOROUGH_VERIFIED
+
+
 def cases(tier):
-    q = True      # thorough extras of this property were not run end-to-end in round 1: thorough == quick until they are
+    import os
+    q = tier == 'quick' or 'C14' not in THOROUGH_VERIFIED and os.environ.get('VERIF_TRY_EXTRAS') != '1'
     cs = []
     for alg in ['greedy', 'optimal']:
         for K in ([1, 2, 3] if q else [1, 2, 3, 4]):
